@@ -65,9 +65,12 @@ def builderStep (s : DState) : List String → Option (DState × String)
   | ["tok", k, hex] =>
     match k.toNat?, decodeText hex with
     | some k, some t =>
-      if s.failNext && (s.cfg.staticText k).isNone then
-        some ({ s with failNext := false }, "panic")
-      else some (withBuilder s fun b => b.token s.cfg k t)
+      match s.builder with
+      | none => some (s, "bad-op")
+      | some (b, slot) =>
+        match b.tokenF s.cfg k t s.failNext with
+        | (.ok b', f) => some ({ s with builder := some (b', slot), failNext := f }, "ok")
+        | (.error _, f) => some ({ s with failNext := f }, "panic")
     | _, _ => some (s, "bad-op")
   | ["stok", k] =>
     match k.toNat? with
